@@ -216,10 +216,6 @@ class Emitter:
             return f"(TData {coq_str(t[1])})"
         if k == "gdata":
             # a specialisation G[int] is a class of its own (type arguments substituted) with the bare name G
-            if self.cur_arg is not None and self.cur_arg != t[2][0] and any(G.contains_tvar(f["type"]) for f in self.tbl.by_name[t[1]]["fields"]):
-                # G2[date] inside G1[int] (same type variable): the schema builder resolves G2's variable with G1's binding
-                # (known finding schema-nested-generic-same-typevar; such tables are left to the oracle)
-                raise OutOfModel("generic nested in a specialisation")
             return f"(TData {coq_str(self.spec_id(t))})"
         if k == "tvar":
             if t[1] in self.tenv:
@@ -257,13 +253,7 @@ class Emitter:
                 # a TypeVar nested in the field type (List[T], Optional[T]) is replaced by the type argument
                 # (f_tv: the serializer and `required` work with the type the variable is bound to, the schema is {})
                 is_tv = f["type"][0] == "tvar" and bool(tenv)
-                self.tenv = dict(tenv)
-                self.cur_arg = tenv.get("T")
-                try:
-                    fty = self.ty(f["type"])
-                finally:
-                    self.tenv = {}
-                    self.cur_arg = None
+                fty = self.ty(G.subst(f["type"], tenv))     # typing's substitution of the written type (flattens unions)
                 fser = "None"
                 if (f.get("ser") or ("",))[0] == "fn":
                     fser = f"(Some {self.ty(f['ser'][1])})"     # the schema describes the return annotation of the function
